@@ -9,9 +9,11 @@ from mc import core, ir, judge, pipeline, program
 
 PROP = "C04"
 FWS = ["base", "pydantic", "sqlmodel", "attrs", "dataclasses"]
-LIT_SETS = [["lit_a"], ["lit_a", "lit_b"], ["lit_a", "lit_b", "long"], ["lit_a", "s_int"], ["lit_a", "null"], ["lit_a", "L(lit_b)"]]
+LIT_SETS = [["lit_a"], ["lit_a", "lit_b"], ["lit_a", "lit_b", "long"], ["lit_a", "s_int"], ["lit_a", "null"], ["lit_a", "L(lit_b)"],
+            # characters that a different escaping would alter: astral, line separators, quotes, backslash
+            [["J", {"a": "\U0001F600"}], ["J", {"a": "x\u2028y"}]], [["J", {"a": 'q"\\'}], ["J", {"a": "\U0001D400b"}], "lit_a"]]
 KEYS = ["a", "aB", "a-b", "class", "list", "Optional", "field", "a b", "é", "яя", "a\"b", "a\\b", "a'b", "a\tb", "1a", "id", "pk",
-        "A", "a.b", "__a", "date", "type_", "aB1"]
+        "A", "a.b", "__a", "date", "type_", "aB1", "PK", "p-k", "Id", "ID"]
 
 
 def _cases(tier):
